@@ -279,6 +279,37 @@ func runC13(r *Run) {
 		}
 		r.check(ok, "C13.R2", "nonce|per-message", v.pos(b), "every message's nonce is checked for (consensus address of its creator, its feeder, its nonce)", "CheckAndIncreaseNonce is not called for every message with (ConsAddress(AccAddress(msg.Creator)), msg.FeederID, msg.Nonce)")
 		r.check(okErr, "C13.R2", "nonce|failure-rejects", v.pos(b), "a nonce failure rejects the tx", "the result of CheckAndIncreaseNonce does not decide rejection")
+		// ... in every execution mode: the fee-less branch hands over to the next decorator only after the
+		// nonce loop (a CheckTx / ReCheckTx / simulate shortcut in front of it would admit transactions whose
+		// nonces were never claimed in that state)
+		okModes := true
+		var nonceLoop ast.Node
+		for _, c := range v.Calls(b.Body, byName("CheckAndIncreaseNonce")) {
+			nonceLoop = v.innermostLoop(c)
+			for _, f := range v.factsAt(c, false) {
+				if f.At != nil && f.At.Pos() >= b.Pos() && !f.LoopCond {
+					if o := v.outcome(f); o != nil && o.Callee.Name() == "AccAddressFromBech32" {
+						continue
+					}
+					if f.At == ast.Node(b) {
+						continue // the fee-less classification itself
+					}
+					okModes = false
+				}
+			}
+		}
+		if nonceLoop == nil {
+			okModes = false
+		} else {
+			ast.Inspect(b.Body, func(n ast.Node) bool {
+				rs, isRet := n.(*ast.ReturnStmt)
+				if isRet && rs.Pos() < nonceLoop.Pos() {
+					okModes = false
+				}
+				return true
+			})
+		}
+		r.check(okModes, "C13.R2", "nonce|every-mode", v.pos(b), "the nonce check runs for every fee-less tx in every execution mode before the next decorator is called", "the fee-less branch can return (or skip the nonce loop) before CheckAndIncreaseNonce: re-checked mempool transactions no longer occupy their nonces, so a validator gets MaxNonce more fee-less transactions admitted after every block")
 		// the ordinary sequence is not bumped for fee-less txs and is bumped for everyone else
 		okSeq := false
 		for _, c := range v.CallsNamed("SetSequence") {
@@ -765,6 +796,23 @@ func runC13(r *Run) {
 		r.bad("C13.R6", "anchor|CheckRules", "-", "anchor", "not found")
 	} else {
 		r.saw(v.ID())
+		// as many price sources as the rule lists: together with "every listed source is present" this makes the
+		// submitted sources exactly the rule's (no surplus source, no duplicate)
+		pricesP := paramName(v, 1)
+		okCount := v.rejectsWhen(v.Decl.Body, func(f Fact) bool {
+			c, isC := factCmp(f)
+			if !isC || c.Op != "!=" {
+				return false
+			}
+			l, rr := exprString(c.L), exprString(c.R)
+			isRule := func(s string) bool { return strings.HasPrefix(s, "len(") && strings.HasSuffix(s, ".SourceIDs)") }
+			isPrices := func(s string) bool { return s == "len("+pricesP+")" }
+			return (isRule(l) && isPrices(rr)) || (isRule(rr) && isPrices(l))
+		}, func(f Fact) bool {
+			c, isC := factCmp(f)
+			return isC && c.Op == ">" && strings.HasSuffix(exprString(c.L), ".SourceIDs)") && exprString(c.R) == "0"
+		})
+		r.check(okCount, "C13.R6", "rules|exact-source-count", v.pos(v.Decl), "a submission with more or fewer price sources than the rule lists is rejected", "CheckRules does not reject every submission whose number of price sources differs from the rule's: surplus sources (e.g. the custom source 0 with an arbitrary price, or a duplicate) are counted")
 		// contradiction rule: a "not found" flag that is set to true at the top of each
 		// outer iteration and cleared by an inner search must be acted upon before the
 		// next outer iteration overwrites it.
